@@ -484,6 +484,19 @@ func (m *Matcher) match(pattern interface{}, fact interface{}, bindings Bindings
 			}
 			binding, found := bs[vv]
 			if found {
+				if s, is := binding.(string); is && m.IsVariable(s) {
+					// The bound value merely looks like a
+					// variable (a message contained, say,
+					// the string "?x").  It is a constant.
+					// Using it as a pattern would at best
+					// bind something unexpected, and it
+					// recurses forever when a variable is
+					// bound to its own name.
+					if fs, is := fact.(string); is && fs == s {
+						return []Bindings{bindings}, nil
+					}
+					return nil, nil
+				}
 				return m.match(binding, fact, bindings)
 			} else {
 				// add new binding
